@@ -54,7 +54,8 @@ def time_average(
     time_interval = snapshots.snapshots[1].timestep - \
         snapshots.snapshots[0].timestep
     time_interval *= dt
-    time_nsnapshot = int(time_period / time_interval)
+    # floor(period / interval), tolerant to floating-point error for exact multiples (0.6 / 0.2 -> 3)
+    time_nsnapshot = int(round(time_period / time_interval, 8))
     # save the time averaged results
     results = np.zeros((
         snapshots.nsnapshots - time_nsnapshot,
@@ -65,7 +66,7 @@ def time_average(
 
     for n in range(results.shape[0]):
         results[n, :] = input_property[n:n + time_nsnapshot].mean(axis=0)
-        results_middle_snapshots.append(round(n + time_nsnapshot / 2))
+        results_middle_snapshots.append(n + time_nsnapshot // 2)
     return results, np.array(results_middle_snapshots)
 
 
